@@ -33,9 +33,21 @@ func (dv *Router) advertDataFetch(nodeId enc.Name, seqNo uint64) {
 		Nonce:       utils.ConvertNonce(dv.engine.Timer().Nonce()),
 	}
 
+	// If the Interest cannot be made or sent there will be no callback. The
+	// sequence number is already recorded for the neighbor, so its next Sync
+	// Interests will not start another fetch: retry later, as after a failed
+	// fetch. The check above ends the retries once the sequence number is gone.
+	retryLater := func() {
+		go func() {
+			time.Sleep(2 * time.Second)
+			dv.advertDataFetch(nodeId, seqNo)
+		}()
+	}
+
 	interest, err := dv.engine.Spec().MakeInterest(advName, cfg, nil, nil)
 	if err != nil {
 		log.Warnf("advertDataFetch: failed to make Interest: %+v", err)
+		retryLater()
 		return
 	}
 
@@ -65,6 +77,7 @@ func (dv *Router) advertDataFetch(nodeId enc.Name, seqNo uint64) {
 	})
 	if err != nil {
 		log.Warnf("advertDataFetch: failed to express Interest: %+v", err)
+		retryLater()
 	}
 }
 
